@@ -1,3 +1,4 @@
+import Svgbob.Proofs.RoundedComplete
 import Svgbob.Proofs.RectSound
 import Svgbob.Proofs.RectStrokes
 import Svgbob.Proofs.BoxComplete
@@ -10,9 +11,13 @@ only if it consists of exactly four fragments and each of the four sides of the 
 touch (ladders, an H with two bars, overhanging sides) are never turned into a rectangle.
 (This became true with the `fix:` for C03/C05; before, two aabb-parallel pairs with one touching
 perpendicular pair each were enough.)
-Completeness for the whole box family (all sizes, corner and edge styles) is checked by the
-bounded sweep on the implementation and by the byte-level correspondence; known finding:
-rounded boxes with zero interior width or height are not recognised.
+Completeness at the endorsement stage is proved for both families: `every_box_is_endorsed` (four
+sides of any sharp box) and `every_rounded_box_is_endorsed` (the four shortened sides and the four
+quarter arcs of any rounded box with a positive corner radius and sides of positive length, each side
+solid or dashed). That the characters of a box yield exactly those fragments, for every size and
+edge style, is checked by the bounded sweep on the implementation and by the byte-level
+correspondence; known finding: rounded boxes with zero interior width or height are not
+recognised (their sides have length zero: the hypothesis `a < b`, `c < d` below excludes them).
 -/
 namespace Svgbob.C05
 open Svgbob
@@ -69,5 +74,28 @@ def ladderLines : List Frag :=
 
 example : endorseRect boxLines = some (.rect ⟨500, 1000⟩ ⟨3500, 5000⟩ false none false) := by decide
 example : endorseRect ladderLines = none := by decide
+
+/-- **every rounded box is endorsed**: outer corners `(x0, y0)`, `(x1, y1)`, corner radius `r > 0`,
+sides ending at `a = x0 + r`, `b = x1 - r`, `c = y0 + r`, `d = y1 - r` with `a < b`, `c < d`; the eight
+fragments in the order the pipeline leaves them (top-left arc, left, top, top-right arc, right,
+bottom-left arc, bottom, bottom-right arc) are endorsed as exactly the rectangle of the box with that
+corner radius, dashed iff some side is -/
+theorem every_rounded_box_is_endorsed (x0 a b x1 y0 c d y1 r : Int) (hr : 0 < r)
+    (ha : a = x0 + r) (hb : b = x1 - r) (hc : c = y0 + r) (hd : d = y1 - r)
+    (hab : a < b) (hcd : c < d) (bT bL bR bB : Bool) :
+    contactsEndorseRect (roundedSides x0 a b x1 y0 c d y1 r bT bL bR bB) =
+      some (.rect ⟨x0, y0⟩ ⟨x1, y1⟩ false (some r) (bL || bT || bR || bB)) :=
+  endorseRoundedRect_box x0 a b x1 y0 c d y1 r hr ha hb hc hd hab hcd bT bL bR bB
+
+/-- test (labelled as test): the fragment list of the theorem is the one the model's pipeline computes
+for a drawn rounded box (`.---.` / `|   |` x2 / `'---'` at the origin: r = 500, outer box 500..4500 x
+1000..7000) -/
+example :
+    (contactsOf (fun c => c.length)
+        [(⟨0,0⟩,'.'),(⟨1,0⟩,'-'),(⟨2,0⟩,'-'),(⟨3,0⟩,'-'),(⟨4,0⟩,'.'),(⟨0,1⟩,'|'),(⟨4,1⟩,'|'),
+         (⟨0,2⟩,'|'),(⟨4,2⟩,'|'),(⟨0,3⟩,'\''),(⟨1,3⟩,'-'),(⟨2,3⟩,'-'),(⟨3,3⟩,'-'),(⟨4,3⟩,'\'')]).map
+      (·.map (·.frag)) =
+      [roundedSides 500 1000 4000 4500 1000 1500 6500 7000 500 false false false false] := by
+  decide +kernel
 
 end Svgbob.C05
